@@ -127,6 +127,13 @@ func run(r *core.Run) {
 	run1("tokens-glued", auxData{}, "")
 	// (c1) depth generator programs
 	run1("gen-eval", auxData{}, "")
+	// (c1') reader nesting that does not pass through a bracket: read in
+	// reader-only workers with a reduced stack ceiling, then loaded under limits
+	r.Bound("reader_depths", readerDepthsFor(thorough))
+	r.Bound("reader_generators", len(readerGens))
+	r.Bound("reader_only_worker_stack_ceiling_bytes", readerStackCeiling)
+	run1("reader-depth", auxData{}, "")
+	run1("reader-depth-load", auxData{}, "")
 	// (d) level 0: every callable x every V0 tuple
 	l0 := run1("L0", auxData{}, "")
 	v1keyList, v1 := repsOf(pl, l0)
@@ -201,6 +208,28 @@ func run(r *core.Run) {
 	harness := append([]string(nil), pl.harness...)
 	pl.mu.Unlock()
 	r.Extra("spaces", stats)
+	// count-only structural observation: what each reader said about each
+	// depth generator.  Nothing is asserted about it (the statement does not
+	// name the reader's nesting limit); a change shows up here.
+	pl.mu.Lock()
+	obs := map[string]string{}
+	var accS, rejS int
+	for k, v := range pl.obs {
+		obs[k] = v
+		if strings.HasPrefix(k, "reader-depth ") {
+			if strings.Contains(v, "strict=true") {
+				accS++
+			} else {
+				rejS++
+			}
+		}
+	}
+	pl.mu.Unlock()
+	if len(obs) > 0 {
+		r.Extra("reader_depth_verdicts", obs)
+		r.Extra("reader_depth_strict_accepted", accS)
+		r.Extra("reader_depth_strict_rejected", rejS)
+	}
 	if len(repeats) > 0 {
 		r.Extra("further_worker_deaths_of_confirmed_classes", repeats)
 	}
